@@ -120,7 +120,7 @@ static void do_serialize(double d)
 }
 
 /* ---------- inputs ---------- */
-#define MAXIN 200000
+#define MAXIN 1200000
 static char (*INTXT)[24];
 static int nin;
 static uint64_t *BASE; /* hash of the C-locale result per input */
@@ -131,7 +131,7 @@ static uint64_t *DBASE;
 static void gen_inputs(void)
 {
 	static const char alpha[] = "-019.eE+";
-	int maxlen = mc_tier ? 6 : 5;
+	int maxlen = mc_tier ? 7 : 5;
 	INTXT = malloc(sizeof(*INTXT) * MAXIN);
 	char s[16];
 	for (int len = 1; len <= maxlen; len++)
